@@ -41,7 +41,7 @@ func buildOverlay() (map[string][]byte, map[string]string, []string, error) {
 		dir, file := filepath.Split(rel)
 		dir = strings.TrimSuffix(dir, "/")
 		var virt string
-		if dir == "sym" || dir == "stub" {
+		if dir == "sym" || dir == "stub" || dir == "stubsel" {
 			virt = filepath.Join(repoDir, "zzverif", dir, file)
 			pkgs[modPath+"/zzverif/"+dir] = true
 		} else {
